@@ -138,7 +138,15 @@ def run(tape, kind):
         calls.append(wl['second'])
     info = None
     for ci, (n, obj) in enumerate(calls, 1):
-        res = run_.sample(n, **obj)
+        if tape.chance('manual_drive', 1, 5):
+            # hand-driven run (set_objective / iterate / extract_result), optionally looking at
+            # the intermediate result once or twice on the way
+            peeks = sorted({tape.int('peek_after', 1, 6)
+                            for _ in range(tape.int('n_peeks', 0, 2))})
+            res = run_.drive_manually(n, peek_after=peeks, **obj)
+            out.probes['manual_drive'] += 1
+        else:
+            res = run_.sample(n, **obj)
         if res is None:
             if run_.errors:
                 out.violate('finishes', type(run_.errors[-1]).__name__, call=ci,
